@@ -1,6 +1,7 @@
 (* C05 — device-reported errors are surfaced, typed and not retried. *)
 From GV Require Import Base.Bytes Base.Hex Base.LE Vedirect.Frame Vedirect.FrameFacts
      Vedirect.Port Vedirect.Driver Vedirect.DriverFacts.
+From GV Require Import Tables.ObsTypes Gen.Obs Api.Api Api.ApiFacts Api.ApiErr.
 
 Theorem C05_flag_error :
   forall addr flag trailing, 0 <= addr < 65536 -> In flag [1; 2; 4] ->
@@ -26,6 +27,19 @@ Theorem C05_one_write :
     (written (pt s') = written (pt s) \/ written (pt s') = written (pt s) ++ [tx_frame cmd addr]).
 Proof. exact ve_command_writes. Qed.
 Print Assumptions C05_one_write.
+
+(* the register API (all four Read*Register functions, any register r): the error comes
+   back wrapped with the register's name, its root is still the device error (errors.Is
+   matches), and the read wrote exactly one command frame *)
+Theorem C05_api_wrapped :
+  forall c idle r s raw e s1,
+    ve_command c idle 7 (r_addr r mod 65536) s = (Ok raw, s1) ->
+    classify_get (r_addr r mod 65536) raw = GFail e ->
+    fst (read_register c idle r s) = Err (wrap r e) /\
+    err_root (wrap r e) = err_root e /\
+    nwrites (pt (snd (read_register c idle r s))) = S (nwrites (pt s)).
+Proof. exact api_device_error. Qed.
+Print Assumptions C05_api_wrapped.
 
 Example C05_premises_met :
   classify_get 60912 [xf0; xed; x01] = GFail EUnknownId /\
